@@ -624,7 +624,11 @@ def rule_P6(repo: Repo) -> RuleResult:
                 res.ok(f, n, norm(n)[:90], "combined array has the null slot")
             else:
                 res.bad(f, n, norm(n)[:90], "the combined array of the chunked path has no null slot")
-    if found < 2:
+    if found == 1:
+        res.bad(f, f.node, "chunked merge target: not built by _build_target_for_groupby(.., n + 1)",
+                "the merge target of the chunked path is not allocated by _build_target_for_groupby with the extra slot and the "
+                "reduction's null / initial value: the null-key slot and never-written groups keep an arbitrary fill (0 from np.zeros)")
+    elif found < 2:
         raise AnalysisError(f"P6: allocation sites not found in _apply_gb_func_across_chunked_group_keys ({found})")
     b = core.func("GroupBy._build_arg_dict_for_function")
     for n in walk_no_nested(b.node):
